@@ -8,12 +8,14 @@
                         upstream replica; `pending_watermark` is always `None` in them;
   * `outs_good`       : with one upstream replica `Start` is the identity on contract-respecting
                         streams (receive timeouts become `FlushBatch`, nothing after `Terminate`);
-  * `liftStage`       : an operator chain as a per-element transducer lifted to streams;
+  * `liftStage`       : (Model/Stateless.lean) an operator chain as a per-element transducer lifted to
+                        streams — lemmas here;
   * `arrivalsOf`      : batches with receive timeouts in between.
 -/
 import NoirVerif.Props.C16SeqPath
+import NoirVerif.Model.Stateless
 namespace Noir.SeqChain
-open Noir Noir.Start Noir.StartSpec Noir.SeqPath
+open Noir Noir.Start Noir.StartSpec Noir.SeqPath Noir.Stateless
 
 variable {α β γ : Type}
 
@@ -361,21 +363,8 @@ theorem elemsOf_arrivalsOf (batches : List (List (Elem α))) : ∀ tos : List Na
 
 /-! ### operator chains as per-element transducers -/
 
-/-- one element through a stage: data elements are expanded (a timestamped one keeps its
-    timestamp on every result, flat_map.rs:110-113), everything else passes unchanged -/
-def liftElem (f : α → List β) : Elem α → List (Elem β)
-  | .item a => (f a).map .item
-  | .ts a t => (f a).map (fun b => .ts b t)
-  | .wm t => [.wm t]
-  | .flushBatch => [.flushBatch]
-  | .term => [.term]
-  | .far => [.far]
-
-/-- an operator chain `stage` (map / filter / flat_map / inspect and compositions) on a stream -/
-def liftStage (f : α → List β) (l : List (Elem α)) : List (Elem β) := l.flatMap (liftElem f)
-
-/-- Kleisli composition of stages -/
-def kleisli (f : α → List β) (g : β → List γ) : α → List γ := fun a => (f a).flatMap g
+/- `liftElem`, `liftStage`, `kleisli` live in Model/Stateless.lean (import-free: the correspondence
+   component `stateless` runs the REAL map / filter / flat_map / … operators against them). -/
 
 theorem liftStage_nil (f : α → List β) : liftStage f [] = [] := rfl
 
@@ -440,6 +429,13 @@ theorem liftStage_filter (f : α → List β) (l : List (Elem α)) :
   | cons e l ih =>
     rw [liftStage_cons, List.filter_append, ih, liftElem_filter, List.filter_cons]
     cases h : notFlushBatch e <;> simp [liftStage_cons]
+
+/-- a stage whose user state is never consulted is a stateless stage -/
+theorem liftStageAcc_const {σ : Type} (f : α → List β) (l : List (Elem α)) : ∀ s : σ,
+    liftStageAcc (fun s a => (s, f a)) s l = liftStage f l := by
+  induction l with
+  | nil => intro s; rfl
+  | cons e l ih => intro s; cases e <;> simp [liftStageAcc, liftStage_cons, liftElem, ih]
 
 /-- the payloads of the data elements of a stream, in order -/
 def dataOf (l : List (Elem α)) : List α := l.filterMap Elem.value
@@ -571,7 +567,7 @@ def Chain.run : {α γ : Type} → Chain α γ → List (Elem α) → List (Elem
 /-- `stage_0 >=> … >=> stage_k` -/
 def Chain.kleisli : {α γ : Type} → Chain α γ → α → List γ
   | _, _, .last f => f
-  | _, _, .cons f _ rest => SeqChain.kleisli f rest.kleisli
+  | _, _, .cons f _ rest => Stateless.kleisli f rest.kleisli
 
 /-- the corresponding iterator chain `xs.flatMap stage_0 |>.flatMap stage_1 …` -/
 def Chain.iter : {α γ : Type} → Chain α γ → List α → List γ
